@@ -275,6 +275,17 @@ func (env *SpecEnv) Eval(e *SExpr) Val {
 			bs = append(bs, fmt.Sprintf("(%s %s)", name, st.S))
 		}
 		body := n.boolE(e.Args[0])
+		if len(e.Pats) > 0 {
+			var ps []string
+			for _, g := range e.Pats {
+				var ts []string
+				for _, pe := range g {
+					ts = append(ts, n.Eval(pe).T)
+				}
+				ps = append(ps, ":pattern ("+strings.Join(ts, " ")+")")
+			}
+			body = "(! " + body + " " + strings.Join(ps, " ") + ")"
+		}
 		return Val{T: fmt.Sprintf("(%s (%s) %s)", e.Op, strings.Join(bs, " "), body), S: SBool}
 	case "call":
 		return env.call(e)
